@@ -364,6 +364,7 @@ package argmapper
 //@   ensures  [nil-or-non-func-rejected] imp(f == nil || kindof(dyntype(f)) != 19, result1 != nil)
 //@   ensures  [error-means-nil] imp(result1 != nil, result0 == nil)
 //@   ensures  [wraps-function] imp(result1 == nil, result0 != nil && fresh(result0) && f != nil && result0.fn == rvof(f) && kindof(dyntype(f)) == 19 && result0.onceResult == nil && result0.input != nil && result0.output != nil && fresh(result0.input) && fresh(result0.output) && result0.callOpts == opts)
+//@   ensures  [once-only-with-the-option] imp(result1 == nil, forall(i, int, imp(0 <= i && i < len(opts) && fncode(opts[i]) == litcode("argmapper.FuncOnce$1"), result0.once)) && imp(forall(i, int, imp(0 <= i && i < len(opts), fncode(opts[i]) != litcode("argmapper.FuncOnce$1"))), !result0.once))
 //@   ensures  [inputs-empty] imp(result1 == nil && numIn(dyntype(f)) == 0, emptyVS(result0.input))
 //@   ensures  [inputs-lifted-0] imp(result1 == nil && numIn(dyntype(f)) >= 1 && forall(i, int, imp(0 <= i && i < numIn(dyntype(f)), !isMarkerStruct(inType(dyntype(f), i)))), liftedL0(result0.input, methodval("reflect.(Type).In", dyntype(f)), numIn(dyntype(f))))
 //@   ensures  [inputs-lifted-1] imp(result1 == nil && numIn(dyntype(f)) >= 1 && forall(i, int, imp(0 <= i && i < numIn(dyntype(f)), !isMarkerStruct(inType(dyntype(f), i)))), liftedL1(result0.input, methodval("reflect.(Type).In", dyntype(f)), numIn(dyntype(f))))
@@ -571,8 +572,8 @@ package argmapper
 
 //@ func convertFunc
 //@   requires forall(i, int, imp(0 <= i && i < len(target), target[i] != nil))
-//@   ensures  [identity-function-of-the-target-types] imp(result1 == nil, result0 != nil && fresh(result0) && valid(result0.fn) && kindof(rtypeof(result0.fn)) == 19 && numIn(rtypeof(result0.fn)) == len(target) && numOut(rtypeof(result0.fn)) == len(target)
-//@               && forall(i, int, imp(0 <= i && i < len(target), inType(rtypeof(result0.fn), i) == target[i] && outType(rtypeof(result0.fn), i) == target[i])) && result0.onceResult == nil && !result0.once)
+//@   ensures  [a-function] imp(result1 == nil, result0 != nil && fresh(result0) && valid(result0.fn) && kindof(rtypeof(result0.fn)) == 19 && result0.onceResult == nil && !result0.once)
+//@   ensures  [identity-signature] imp(result1 == nil, numIn(rtypeof(result0.fn)) == len(target) && numOut(rtypeof(result0.fn)) == len(target) && forall(i, int, imp(0 <= i && i < len(target), inType(rtypeof(result0.fn), i) == target[i] && outType(rtypeof(result0.fn), i) == target[i])))
 //@   ensures  [error-means-nil] imp(result1 != nil, result0 == nil)
 //@   assigns  Func, argBuilder, NamedM, NamedSubM, TypedM, TypedSubM, []*Func, []ConverterGenFunc, ValueSet, Value, valueInternal, []*Value, map[string]*Value, map[reflect.Type]*Value, map[string]string, []string, []interface{}, reflect.StructField, []reflect.StructField, []Arg, rvstore, rvfresh
 //@   modifies nothing
